@@ -6,7 +6,9 @@ CONFIG = dict(
     level_text="Machine-checked proof in Lean 4, for every schedule of any number of user/system posters, the consumer and the pause helper: at most one "
                "processMessages queued or running (single_runner), delivered ++ queued = pushed for both queues (exactly once, FIFO, hence per-sender order), "
                "system pop before user pop (system_first), and no quiescent state with deliverable work (no_lost_wakeup, via an inductive 5-part invariant "
-               "of a counter abstraction that the fine model provably refines). The fine model is tied to the real SmoothFrameMailbox (real goring/mpsc) on "
+               "of a counter abstraction that the fine model provably refines); while deliverable work is pending some existing thread has an enabled step "
+               "(pending_work_can_progress), and from EVERY reachable state the existing threads alone — no further post — can run the mailbox to a quiescent state in which "
+               "everything posted so far has been handed over (can_always_drain: explicit scheduler, potential function decreasing on each of its steps). The fine model is tied to the real SmoothFrameMailbox (real goring/mpsc) on "
                "every run: all goroutines are parked at build-tag yield points before each atomic step, a controller drives seeded schedules (uniform, sticky, "
                "adversarial around the store-idle/re-read window, consumer-first), and after EVERY step the five shared words, the consumer's program point, the "
                "dispatcher queue and the invoked message are compared with the model; the property predicate runs on the implementation's own trace. "
@@ -33,7 +35,7 @@ CONFIG = dict(
                        "mpsc_chain_invariant", "mpsc_delivers_swap_order", "mpsc_per_producer_fifo", "mpsc_pop_blocked_only_by_unlinked",
                        "mpsc_pop_delivers_oldest", "mpsc_quiescent_all_visible", "mpsc_link_reveals",
                        "mailbox_pushS_is_swap_link", "mailbox_popS_is_list_pop", "mailbox_sysqueue_invariant", "mailbox_no_lost_wakeup_split_push",
-                       "sched_channel_bounded", "sched_exactly_once_in_order", "sched_idle_all_delivered", "sched_idle_delivered_eq_posted", "sched_pending_has_run", "sched_blocked_only_when_full", "pending_work_can_progress"],
+                       "sched_channel_bounded", "sched_exactly_once_in_order", "sched_idle_all_delivered", "sched_idle_delivered_eq_posted", "sched_pending_has_run", "sched_blocked_only_when_full", "pending_work_can_progress", "can_always_drain"],
     # hook H2 (vy("mp.swap") / vy("mp.link") / vy("mp.pop") in actorex/queue/mpsc) is committed in /repo as 3b9fc55
     harness_pkg="./c09",
     mode="diff",
